@@ -260,6 +260,7 @@ def classify(prop, run_events, rr, viol):
                 pass
     walev = _wal_events(run_events)
     not_replayed = _failed_flush_not_replayed(run_events)
+    queued_at_close = set(rr.get("queued_at_close") or [])
     abandoned = set(rr.get("abandoned") or [])
     stranded = set(rr.get("stranded") or [])
     wal = "wal=on" if rr.get("wal_on") else "wal=off"
@@ -275,6 +276,8 @@ def classify(prop, run_events, rr, viol):
                     mem = "queued-flush-task-abandoned-by-Close"
                 elif r in stranded:
                     mem = "left-in-buffer-after-Close"
+                elif not att and r in queued_at_close:
+                    mem = "queued-flush-task-not-written-by-Close"
                 elif not att and prop == "C03":
                     mem = "acked-rows-never-reached-any-storage-write"
                 elif not att:
@@ -295,6 +298,9 @@ def classify(prop, run_events, rr, viol):
                     else:
                         last = "wal-copy-never-observed" if r not in in_wal else "wal-copy-still-on-disk"
                     sig = "lost:wal=on:%s" % last
+                    if last == "wal-purged-by-shutdown-hook":
+                        # the hook deletes the WAL before the buffer is closed: which in-memory copy was the last one?
+                        sig += ":row-was=" + mem
                     wal_path = ">".join(x for i, x in enumerate(walev.get(r, [])) if x not in walev.get(r, [])[:i])
                     groups.setdefault(sig, {"rows": [], "at": v["at"], "lifecycles": []})
                     lc = "%s | %s" % (mem, wal_path)
@@ -304,6 +310,8 @@ def classify(prop, run_events, rr, viol):
                 w = [x for x in walev.get(r, []) if "replay" in x]
                 w = [x for i, x in enumerate(w) if x not in w[:i]]
                 sig = "duplicate:%s:%s" % (wal, ">".join(w) if w else "no-replay-involved")
+            elif kind == "flush-acknowledged-although-rows-dropped":
+                sig = "wal=off:FlushAll-returned-nil-although-a-storage-write-it-issued-failed"
             else:
                 sig = kind
             g = groups.setdefault(sig, {"rows": [], "at": v["at"]})
